@@ -449,3 +449,86 @@ func nearDupAcrossFiles(c *engine.Ctx, fails *int) []*core.PResult {
 	}
 	return res
 }
+
+// unusualFileNames (C10, "a file path resolved relative to the referring document"): the referenced document's name
+// or directory contains characters that mean something elsewhere — a colon (URL scheme?), a space, '+', '@',
+// ',', '~', brackets, several dots, a leading digit, non-ASCII — written bare ("defs/x"), with "./", with a fragment
+// and without.  The reference form must behave like the inline form.
+func unusualFileNames(c *engine.Ctx, fails *int) []*core.PResult {
+	point := sgen.M{"type": "object", "properties": sgen.M{"lat": sgen.M{"type": "number", "minimum": -90, "maximum": 90}, "lon": sgen.M{"type": "number"}}, "required": []any{"lat"}}
+	inline := sgen.M{"type": "object", "properties": sgen.M{"at": sgen.DeepCopy(point)}}
+	docs := []any{M{"at": M{"lat": 10, "lon": 20}}, M{"at": M{"lat": 100}}, M{"at": M{"lon": 1}}, M{"at": M{"lat": "x"}}, M{"at": 5}, M{}}
+	names := []string{"geo:point.json", "geo point.json", "a+b.json", "x@y.json", "x,y.json", "~tmp.json", "p[1].json", "v1.2.3.json", "2fast.json", "pünkt.json", "点.json", "a=b.json", "a&b.json", "a;b.json", "UPPER.JSON.json", "-dash.json", "_under.json"}
+	var pcs []*core.PCase
+	var labels []string
+	for _, nm := range names {
+		for _, dir := range []string{"", "defs/", "de:fs/", "d e/"} {
+			for _, prefix := range []string{"", "./"} {
+				for _, frag := range []bool{false, true} {
+					if !c.Thorough() && (len(pcs)/2)%3 != 0 && dir != "defs/" {
+						// quick tier: every name in defs/ in all four spellings, the other directories sampled
+						if !(prefix == "" && !frag) {
+							continue
+						}
+					}
+					if first := strings.SplitN(dir+nm, "/", 2)[0]; prefix == "" && strings.Contains(first, ":") {
+						// RFC 3986 §4.2: the first segment of a relative-path reference cannot contain a colon (it would be a
+						// scheme); such a name must be written with "./"
+						continue
+					}
+					target := sgen.M{"$id": "urn:point", "title": "Point"}
+					ref := prefix + dir + nm
+					if frag {
+						target["$defs"] = sgen.M{"Point": sgen.DeepCopy(point)}
+						target["type"] = "object"
+						ref += "#/$defs/Point"
+					} else {
+						for k, v := range sgen.DeepCopy(point).(sgen.M) {
+							target[k] = v
+						}
+					}
+					main := sgen.M{"$id": "urn:main", "type": "object", "properties": sgen.M{"at": sgen.M{"$ref": ref}}}
+					in := baseCase("c10-names-inline", sgen.DeepCopy(inline).(sgen.M), docs, nm)
+					rf := baseCase("c10-names-ref", main, docs, nm)
+					cfg := core.DefaultCfg()
+					cfg.RootType = "Root"
+					cfg.FileName = "main/schema.json"
+					rf.Cfg = cfg
+					rf.SchemaID = "urn:main"
+					rf.Files = map[string][]byte{"main/" + dir + nm: core.MustJSON(target)}
+					pcs = append(pcs, in, rf)
+					labels = append(labels, ref)
+				}
+			}
+		}
+	}
+	res := runCases(c, pcs)
+	for i := 0; i+1 < len(res); i += 2 {
+		in, rf := res[i], res[i+1]
+		ref := labels[i/2]
+		if in.RunsJ == nil {
+			continue
+		}
+		c.Count("unusual file names", "compared")
+		if rf.RunsJ == nil {
+			*fails++
+			if *fails <= 3 {
+				c.Fail("oracle", fmt.Sprintf("the reference %q to an existing sibling file does not generate although the inline form does: %s", ref, rf.Real.ErrMsg+rf.Real.Panic+clip(rf.CompileErr, 200)),
+					replayOf(rf, -1, M{"files": filesAsStrings(rf.Case.Files)}), false)
+			}
+			continue
+		}
+		for d := range in.DocJSON {
+			a, b := in.RunsJ[d], rf.RunsJ[d]
+			c.Eval(fmt.Sprintf("names|%s|%s/%s|%d", ref, a.Kind, b.Kind, d))
+			if a.Kind != b.Kind || (a.Kind == "ok" && a.Canon != b.Canon) {
+				*fails++
+				if *fails <= 3 {
+					c.Fail("oracle", fmt.Sprintf("reference %q: replacing it by its target changes the result: inline %s %s, reference form %s %s", ref, a.Kind, clip(a.Canon+a.Msg, 120), b.Kind, clip(b.Canon+b.Msg, 120)),
+						replayOf(rf, d, M{"files": filesAsStrings(rf.Case.Files)}), false)
+				}
+			}
+		}
+	}
+	return res
+}
